@@ -35,13 +35,19 @@ PROPERTY = "C19"
 LEAN_TARGETS = ["Ipv8.C19.Props"]
 PROPS_FILE = "Ipv8/C19/Props.lean"
 DRIVER = "drv_c19"
-RULE = ("one case = one (workload, process history, kill point) run against a real file database and reopened by a fresh "
-        "process; workloads: scripted (every event index is a kill point) and generated (IdentityDatabase token/metadata/"
-        "attestation inserts with duplicate primary keys, NULL and multi-page contents, `with db:` blocks ending normally / "
-        "by exception / by IgnoreCommits, explicit commits; AttestationsDB inserts incl. duplicate hashes; "
-        "PseudonymManager credential chains with attestations); kill kinds: event-indexed SIGKILL, mid-write SIGXFSZ, "
-        "timed SIGKILL; distinct = distinct (workload digest, phase split, kill kind, kill position); "
-        "non-trivial = a killed run (not an un-killed probe) in which the kill came after the database file was created")
+RULE = ("one case = one (workload, process history, kill point) run against a real file database, reopened by a fresh "
+        "process; workload classes: scripted (every event index is a kill point: identity inserts with colliding keys, "
+        "single and nested `with db:` blocks, wallet inserts, wallet version-1 files complete / without version row / "
+        "without option table being upgraded, own credentials, other parties' pseudonyms through the public API) and "
+        "generated (IdentityDatabase inserts with colliding primary keys, NULL and multi-page contents, blocks nested "
+        "up to 3 ending normally / by exception / by IgnoreCommits, explicit commits; AttestationsDB inserts incl. "
+        "duplicate hashes; PseudonymManager credential chains with attestations; foreign-*: substantiate with/without "
+        "tokens, add_credential in chain / reversed / shuffled arrival order, add_metadata alone, add_attestation alone; "
+        "randsig-*: key type with randomised signatures (key from the OS generator, recorded in the workload); "
+        "threads-*: 2-8 threads on one Database; store-*: stores above the token tree's waiting-buffer bound; 1-4 "
+        "process lifetimes with earlier processes killed); kill kinds: event-indexed SIGKILL, mid-write SIGXFSZ, timed "
+        "SIGKILL, none (probe); distinct = distinct (workload digest incl. process split and earlier kills, kill kind, "
+        "kill position); non-trivial = a killed run (not a probe) in which the kill came after the database file existed")
 TRUSTED_BASE = [
     "tools/gen_db.py: AST translation of insert_* / Database.commit (straight-line + if), schema classification, handler list",
     "SQLite (3.40) statement/transaction atomicity and WAL recovery after process kill, the file system: exercised by the "
@@ -49,7 +55,8 @@ TRUSTED_BASE = [
     "the event hooks injected in the child (sqlite3.connect factory: Connection/Cursor subclasses + trace callback)",
 ]
 ASSUMPTIONS = ["the process is killed (SIGKILL/SIGXFSZ); power loss / OS crash (synchronous=NORMAL) is outside the property",
-               "one process uses the database file at a time (locking_mode=EXCLUSIVE in the code)",
+               "one process uses the database file at a time (not enforced by the code: locking_mode=EXCLUSIVE is only set "
+               "by the very first open of a file; later opens run in normal locking mode)",
                "rows are atomic values in the model: a torn row or transaction can only be seen by the kill runs"]
 
 META = None          # translator output of this run (table / method names)
@@ -302,9 +309,12 @@ def _make_wallet_v1(spec):
         return
     os.makedirs(os.path.dirname(path), exist_ok=True)
     c = sqlite3.connect(path)
-    c.executescript(f"CREATE TABLE {spec['dbname']}(hash BLOB, blob LONGBLOB, key MEDIUMBLOB, PRIMARY KEY (hash));"
-                    "CREATE TABLE option(key TEXT PRIMARY KEY, value BLOB);"
-                    "INSERT INTO option(key, value) VALUES('database_version', '1');")
+    variant = spec.get("pre_variant") or "complete"
+    c.executescript(f"CREATE TABLE {spec['dbname']}(hash BLOB, blob LONGBLOB, key MEDIUMBLOB, PRIMARY KEY (hash));")
+    if variant != "no_option_table":           # the older release was killed in its very first open
+        c.executescript("CREATE TABLE option(key TEXT PRIMARY KEY, value BLOB);")
+    if variant == "complete":                  # "no_version_row": killed between its DELETE and INSERT of the version
+        c.executescript("INSERT INTO option(key, value) VALUES('database_version', '1');")
     for h, b, k in spec.get("pre_rows", []):
         c.execute(f"INSERT INTO {spec['dbname']} (hash, blob, key) VALUES(?,?,?)", (_unhx(h), _unhx(b), _unhx(k)))
     c.commit()
@@ -425,6 +435,12 @@ def _run_ops(spec, db, mgr, cur=None, indexed=None):
                     for i in op["order"]:
                         token = ops_.tree.elements[fcreds[i].metadata.token_pointer]
                         vps.add_credential(token, fcreds[i].metadata, set(fatts.get(i, [])))
+                elif how == "add_attestation":
+                    vps = mgr.get_pseudonym(pub)
+                    for i in op["subset"]:
+                        for apub, att in fatts.get(i, []):
+                            _emit("K " + att.metadata_pointer.hex())       # handed over without its metadata
+                            vps.add_attestation(apub, att)
                 elif how == "add_metadata":
                     vps = mgr.get_pseudonym(pub)
                     for i in op["subset"]:
@@ -969,7 +985,8 @@ def execute(zy: Zygote, exp: Experiment, root: str, n: int):
         for pi, ops in enumerate(exp.ops_phases):
             last = pi == len(exp.ops_phases) - 1
             spec = dict(base, ops=ops, first_call=first_call, first_op=first_op, end="exit",
-                        threads=exp.extra.get("threads"), pre=exp.extra.get("pre"), pre_rows=exp.extra.get("pre_rows"))
+                        threads=exp.extra.get("threads"), pre=exp.extra.get("pre"), pre_rows=exp.extra.get("pre_rows"),
+                        pre_variant=exp.extra.get("pre_variant"))
             delay = None
             if last:
                 k = exp.kill
@@ -1019,6 +1036,9 @@ def _sha3(*hexes):
         return None
 
 
+CLS = {"identity": "IdentityDatabase", "manager": "IdentityDatabase", "wallet": "AttestationsDB"}
+
+
 def oracle(ctx, exp: Experiment, r) -> bool:
     """the property itself on (ack log, reopened content); True when it holds.  Uses no model notion: only which
     inserts had returned (outside a `with db:` block, or inside one whose normal exit had returned), what they sent
@@ -1032,7 +1052,7 @@ def oracle(ctx, exp: Experiment, r) -> bool:
 
     def fail(sig, what):
         nonlocal ok
-        if "dropped-by-primary-key" not in sig and "without-its-token" not in sig:   # known findings: go on comparing
+        if "dropped-by-primary-key" not in sig and "without-its-" not in sig:        # known findings: go on comparing
             ok = False
         ctx.count("oracle:" + sig)
         seen[sig] = seen.get(sig, 0) + 1
@@ -1075,8 +1095,9 @@ def oracle(ctx, exp: Experiment, r) -> bool:
             if k in present:
                 fail(f"{name}:duplicate-key", f"two rows with the same primary key in {name}")
             present[k] = d
-    dropped_token_hashes = set()
+    dropped_token_hashes, dropped_md_hashes = set(), set()
     t_pk = {name: t["pk"] for name, t in tables.items()}
+    api = dump.get("api") or {}
     # (1) every record whose insert had returned is present and unchanged: the stored record under its primary key
     #     exists and is the one written by that insert or by an earlier insert of the same key (INSERT OR IGNORE:
     #     the first one wins) — never by a later one, never anything else
@@ -1107,18 +1128,22 @@ def oracle(ctx, exp: Experiment, r) -> bool:
                 if k[0] == "Tokens":
                     dropped_token_hashes.add(_sha3(full_i.get("previous_token_hash"), full_i.get("content_hash"),
                                                    full_i.get("signature")))
+                if k[0] == "Metadata":
+                    dropped_md_hashes.add(_sha3(full_i.get("token_pointer"), full_i.get("serialized_json_dict"),
+                                                full_i.get("signature")))
                 if reported:
                     continue
                 reported = True
-                fail(f"{ci['name']}:acked-distinct-record-dropped-by-primary-key",
+                fail(f"{CLS[exp.kind]}.{ci['name']}:acked-distinct-record-dropped-by-primary-key",
                      f"{ci['name']} call #{cid_i} returned, but its record (differs from the stored one in {diff}) is not "
                      f"in the database: an earlier record with the same primary key {t_pk.get(k[0])} was kept")
     # (1'') an insert that returned without ever handing an INSERT to sqlite
     for cid in tr.order:
         c = tr.calls[cid]
         if cid in tr.confirmed and c["row"] is None:
-            fail(f"{c['name']}:returned-without-insert",
-                 f"{c['name']} call #{cid} returned normally but no INSERT statement reached the database")
+            # not a failure by itself (an "already stored" shortcut is legitimate); whether the object is there is
+            # judged by the object read-back (3b) for workloads whose objects the harness knows
+            ctx.count(f"returned_without_insert:{c['name']}")
     # (2) nothing partial, nothing that was never written
     pre_keys = {(WALLET_DBNAME, (h_,)) for h_, _, _ in exp.extra.get("pre_rows", [])} if exp.extra.get("pre") else set()
     for k, got in present.items():
@@ -1129,7 +1154,6 @@ def oracle(ctx, exp: Experiment, r) -> bool:
             fail(f"{k[0]}:foreign-or-partial-record",
                  f"the reopened database shows a record in {k[0]} that no started insert wrote in this form")
     # (3) API level reads agree with the raw rows (what the application will see)
-    api = dump.get("api") or {}
     if exp.kind == "wallet":
         t = tables.get(WALLET_DBNAME)
         if t is not None and sorted(map(repr, api.get("all", []))) != sorted(map(repr, t["rows"])):
@@ -1193,6 +1217,29 @@ def oracle(ctx, exp: Experiment, r) -> bool:
                 fail(f"{name}:acked-object-reads-back-different",
                      f"the object given to {name} call #{lst[conf[0]][0]} (returned before the kill) is not among the "
                      f"objects the API returns after reopen")
+    # (3a-2) a workload operation raised: only a duplicate hash in the wallet table may do that
+    for u in tr.unexpected:
+        exc = u.split(" ")[-1]
+        if not (exp.kind == "wallet" and exc == "IntegrityError"):
+            fail(f"{CLS[exp.kind]}:operation-raised-{exc}",
+                 f"a store operation of the workload raised {exc} (op #{u.split(' ')[0]}) on a database that had opened")
+            break
+    # (3a-3) the opened database has every column the inserts bind
+    for m_ in ((META or {}).get("methods") or []):
+        tname = WALLET_DBNAME if m_["table"] == "<db_name>" else m_["table"]
+        if m_["cls"] == CLS[exp.kind] and tname in tables and not set(m_["cols"]) <= set(tables[tname]["cols"]):
+            fail(f"{m_['cls']}.check_database:schema-incomplete-after-open",
+                 f"after open() table {tname} lacks {sorted(set(m_['cols']) - set(tables[tname]['cols']))}: "
+                 f"every {m_['name']} will raise")
+    # (3a-4) the wallet's reload path (AttestationWalletCommunity.__init__: hash, blob, key, id_format = row;
+    #        id_format.decode()) can read every stored record
+    if exp.kind == "wallet":
+        for row in api.get("all", []):
+            if len(row) != 4 or row[3] is None or row[2] is None:
+                fail("AttestationsDB.get_all:record-not-reloadable",
+                     f"a stored attestation reads back as {len(row)} columns / id_format={row[3] if len(row) > 3 else '-'}: "
+                     f"the wallet's reload (id_format.decode(), load_secret_key(key)) raises")
+                break
     # (3c) records of an older schema version survive the upgrade done by open()
     if exp.extra.get("pre") == "wallet_v1":
         for hx_, bx, kx in exp.extra.get("pre_rows", []):
@@ -1200,6 +1247,21 @@ def oracle(ctx, exp: Experiment, r) -> bool:
             if got is None or got.get("blob") != _cx(_unhx(bx)) or got.get("key") != _cx(_unhx(kx)):
                 fail("AttestationsDB.check_database:record-lost-in-upgrade",
                      "a record of the version-1 file is missing or changed after the (killed) upgrade and reopen")
+    # (3d) every stored attestation points to stored metadata (hashes recomputed from the rows)
+    if exp.kind == "manager":
+        mds = [d for kk, d in present.items() if kk[0] == "Metadata"]
+        if not any(str(d.get("serialized_json_dict", "")).startswith("#") for d in mds):
+            md_hashes = {_sha3(d.get("token_pointer"), d.get("serialized_json_dict"), d.get("signature")) for d in mds}
+            for kk, d in present.items():
+                if kk[0] == "Attestations" and d.get("metadata_pointer") not in md_hashes:
+                    if d.get("metadata_pointer") in getattr(tr, "tokenless", set()):
+                        fail("PseudonymManager.add_attestation:attestation-stored-without-its-metadata",
+                             "the public API was handed an attestation without the metadata it points to and stored it")
+                        break
+                    if d.get("metadata_pointer") not in dropped_md_hashes:
+                        fail("IdentityDatabase:attestation-row-without-metadata-row",
+                             "a stored attestation points to metadata that is not stored")
+                        break
     # (4) the pseudonym rebuilt from the store verifies
     if exp.kind == "manager":
         if "rebuild_error" in dump:
@@ -1555,13 +1617,16 @@ def gen_foreign_ops(rng, n_ops):
         for i in range(n):
             for ak in rng.sample(aks, rng.choice([0, 0, 1, 2])):
                 atts.append([i, _hx(ak)])
-        how = rng.choice(["substantiate", "substantiate", "add_credential", "add_credential", "add_metadata",
-                          "substantiate_no_tokens"])
+        how = rng.choice(["substantiate", "substantiate", "add_credential", "add_credential", "add_credential",
+                          "add_metadata", "add_attestation", "substantiate_no_tokens"])
         op = {"op": "foreign", "sk": _hx(sk), "hashes": [_hx(rb(rng, 32)) for _ in range(n)], "after": after,
               "atts": atts, "how": how.replace("_no_tokens", ""), "drop_tokens": how.endswith("_no_tokens")}
         if how == "add_credential":
             order = list(range(n))
-            if rng.random() < 0.7:
+            r_ = rng.random()
+            if r_ < 0.45:
+                order.reverse()                      # newest first: every token waits for its predecessor
+            elif r_ < 0.85:
                 rng.shuffle(order)
             op["order"] = order
         else:
@@ -1594,13 +1659,30 @@ def gen_thread_ops(rng, n_ops):
     return ops, pks
 
 
-def wallet_v1_experiment(rng):
-    """a version-1 wallet file (as older releases wrote it) is opened by this tree: check_database upgrades it"""
+def wallet_v1_experiment(rng, variant="complete"):
+    """a version-1 wallet file (as older releases wrote it, or as a kill during their open() left it: without version
+    row / without option table) is opened by this tree: check_database upgrades it"""
     pre = [[_hx(rb(rng, 32)), _hx(rb(rng, rng.choice([10, 300, 9000]))), _hx(rb(rng, 40))] for _ in range(3)]
     h = rb(rng, 32)
     ops = [{"op": "watt", "hash": _hx(h), "blob": _hx(b"n" * 50), "key": _hx(rb(rng, 40)), "fmt": "id_metadata"}]
-    return Experiment("wallet", [ops], None, "scripted-wallet-v1-upgrade", hashes=[_hx(h)] + [p[0] for p in pre],
-                      extra={"pre": "wallet_v1", "pre_rows": pre})
+    return Experiment("wallet", [ops], None, "scripted-wallet-v1-" + variant, hashes=[_hx(h)] + [p[0] for p in pre],
+                      extra={"pre": "wallet_v1", "pre_rows": pre, "pre_variant": variant})
+
+
+def scripted_foreign(rng):
+    """fixed public-API workload: a chain of 4 credentials of another party handed to add_credential newest first
+    (every token but the last waits for its predecessor), two of them attested by two authorities; a complete
+    disclosure; an attestation handed over without its metadata"""
+    aks = [b"LibNaCLSK:" + rb(rng, 64) for _ in range(2)]
+    sk1, sk2, sk3 = (b"LibNaCLSK:" + rb(rng, 64) for _ in range(3))
+
+    def f(sk, n, how, **kw):
+        return dict({"op": "foreign", "sk": _hx(sk), "hashes": [_hx(rb(rng, 32)) for _ in range(n)],
+                     "after": [None] + list(range(n - 1)), "how": how, "drop_tokens": False,
+                     "atts": [[0, _hx(aks[0])], [0, _hx(aks[1])], [n - 1, _hx(aks[0])]]}, **kw)
+    ops = [f(sk1, 4, "add_credential", order=[3, 2, 1, 0]), f(sk2, 3, "substantiate", subset=[0, 1, 2]),
+           f(sk3, 2, "add_attestation", subset=[1])]
+    return Experiment("manager", [ops], None, "scripted-foreign", extra={"pubs": [pub_of(_hx(k)) for k in (sk1, sk2, sk3)]})
 
 
 def reload_bound():
@@ -1684,6 +1766,9 @@ def scripted(rng):
         Experiment("manager", [mops], None, "scripted-manager", sks=sks),
         Experiment("manager", [mops[:3], mops[3:]], None, "scripted-manager-2phase", sks=sks),
         wallet_v1_experiment(rng),
+        wallet_v1_experiment(rng, "no_version_row"),
+        wallet_v1_experiment(rng, "no_option_table"),
+        scripted_foreign(rng),
     ]
 
 
@@ -1871,7 +1956,7 @@ def run(ctx):
                 fsize_runs(runner, exp, probe, rng, ctx.scale(12, 150))
         ctx.extra["t_scripted_s"] = round(ctx.elapsed(), 1)
         # generated workloads
-        n_gen = ctx.scale(36, 360)
+        n_gen = ctx.scale(26, 360)
         for i in range(n_gen):
             kind = rng.choice(["identity", "identity", "wallet", "manager"])
             n_ops = rng.choice([3, 6, 10, 16, 24])
@@ -1907,7 +1992,7 @@ def run(ctx):
                 timed_runs(runner, exp, rng, ctx.scale(6, 12), 0.004 * max(1, len(ops)) / 4)
         # the public API fed with other parties' pseudonyms; keys with randomised signatures; concurrent threads
         api_exps = []
-        for i in range(ctx.scale(6, 30)):
+        for i in range(ctx.scale(5, 30)):
             ops, pubs = gen_foreign_ops(rng, rng.choice([1, 2, 3]))
             phases = [ops[:1], ops[1:]] if len(ops) > 1 and rng.random() < 0.4 else [ops]
             api_exps.append(Experiment("manager", phases, None, f"foreign-{i}", extra={"pubs": pubs}))
@@ -1917,7 +2002,7 @@ def run(ctx):
             ops, sks = gen_randsig_ops(rng, rng.choice([2, 4, 6]))
             api_exps.append(Experiment("manager", [ops], None, f"randsig-{i}", sks=sks))
         for i in range(ctx.scale(2, 8)):
-            ops, pks = gen_thread_ops(rng, ctx.scale(160, 400))
+            ops, pks = gen_thread_ops(rng, ctx.scale(120, 400))
             api_exps.append(Experiment("identity", [ops], None, f"threads-{i}", pks=pks,
                                        extra={"threads": rng.choice([2, 4, 8])}))
         for e in api_exps:
@@ -1965,10 +2050,10 @@ def search(ctx, reason):
     try:
         for exp in scripted(rng):
             probe = exhaustive(runner, exp)
-            fsize_runs(runner, exp, probe, rng, 60)
+            fsize_runs(runner, exp, probe, rng, 30)
             if new_failures(ctx):
                 return
-        for i in range(40):
+        for i in range(10):
             kind = rng.choice(["identity", "wallet", "manager"])
             if kind == "identity":
                 ops, pks = gen_identity_ops(rng, 12, big=True)
